@@ -2,11 +2,14 @@
 //! reference model. Every call into memchr goes through `Ctx::mon`, which is
 //! where the step counter (C13) and the allocation counter (C17) are read.
 
+#[allow(unused_imports)]
+use crate::prelude::*;
 use crate::case::{Be, Case, Fam};
 use crate::oracle;
 use crate::rankers::TableRanker;
 use memchr::arch::all::packedpair::Pair;
 use memchr::memmem;
+#[cfg(not(target_arch = "wasm32"))]
 use std::panic::{catch_unwind, AssertUnwindSafe};
 
 #[derive(Default, Clone)]
@@ -47,9 +50,9 @@ impl Ctx {
     pub fn mon<T>(&mut self, f: impl FnOnce() -> T) -> T {
         let s0 = crate::hooks::steps();
         if self.count_allocs {
-            crate::alloc::arm();
+            crate::allocmon::arm();
             let r = f();
-            self.allocs += crate::alloc::disarm();
+            self.allocs += crate::allocmon::disarm();
             self.steps += crate::hooks::steps().wrapping_sub(s0);
             r
         } else {
@@ -63,9 +66,9 @@ impl Ctx {
     pub fn mon_owning<T>(&mut self, f: impl FnOnce() -> T) -> T {
         let s0 = crate::hooks::steps();
         if self.count_allocs {
-            crate::alloc::arm();
+            crate::allocmon::arm();
             let r = f();
-            self.owning_allocs += crate::alloc::disarm();
+            self.owning_allocs += crate::allocmon::disarm();
             self.steps += crate::hooks::steps().wrapping_sub(s0);
             r
         } else {
@@ -916,6 +919,18 @@ fn exec_block(c: &Case, ctx: &mut Ctx) -> Result<(), String> {
 // ---------------------------------------------------------------------------
 // PPanic: the documented panic, exactly
 
+#[cfg(target_arch = "wasm32")]
+fn exec_ppanic(_c: &Case, ctx: &mut Ctx) -> Result<(), String> {
+    // no unwinding on wasm32-unknown-unknown: a panic is a trap
+    skip(ctx)
+}
+
+#[cfg(target_arch = "wasm32")]
+fn exec_mismatch(_c: &Case, ctx: &mut Ctx) -> Result<(), String> {
+    skip(ctx)
+}
+
+#[cfg(not(target_arch = "wasm32"))]
 fn exec_ppanic(c: &Case, ctx: &mut Ctx) -> Result<(), String> {
     let (hay, ndl) = (c.hay, c.ndl);
     let form = c.api.form;
@@ -995,6 +1010,7 @@ fn exec_ppanic(c: &Case, ctx: &mut Ctx) -> Result<(), String> {
 // ---------------------------------------------------------------------------
 // Mismatch: only faults count; result and panics are ignored
 
+#[cfg(not(target_arch = "wasm32"))]
 fn exec_mismatch(c: &Case, ctx: &mut Ctx) -> Result<(), String> {
     use memchr::arch::all::{rabinkarp, twoway};
     let (hay, ndl, other) = (c.hay, c.ndl, c.ops);
